@@ -58,6 +58,7 @@ type Result struct {
 	Revisits       int // transitions that led to an already known state
 	ObsChecked     int // revisits on which the differential oracle was evaluated
 	Pruned         int // violating transitions whose target state was not expanded
+	PerLetter      []int // transitions executed per letter
 }
 
 type succ struct {
@@ -161,6 +162,10 @@ func BFS(cfg Config) Result {
 					continue
 				}
 				res.Transitions++
+				if res.PerLetter == nil {
+					res.PerLetter = make([]int, nL)
+				}
+				res.PerLetter[l]++
 				res.RealCalls += len(frontier[i]) + 1
 				hist := append(append([]int{}, frontier[i]...), l)
 				collectFails(&res, failSeen, cfg.MaxFails, s.fails, name(hist))
